@@ -413,3 +413,9 @@ def guard_forms(pa: PathAnalysis, site: Site, preserve: str = "preserve") -> Tup
             rel = sorted(show_text(show(f)) for f in w.facts if "preserve" in show(f))[:4]
             why.append(f"no fact `{site.subject}.name not in preserve`; preserve facts on this path: {rel}")
     return bare_all, any_all, why
+
+
+def plain_text(text: str) -> str:
+    """fact text without version suffixes and blanks normalised (for substring tests)"""
+    from .pathcond import plain
+    return plain(text)
